@@ -5,12 +5,14 @@ from .common import find_calls, one_call, call_outcomes, TRUTH, flip
 from . import paths as P
 
 EXPLANATION = (
-    "Decides structural necessary conditions of C17 from MIR: (R1) PEERS_PER_DOC_CACHE_SIZE evaluates to 5; (R2) every write "
-    "to the peers table in register_useful_peer is dominated by the document-exists edge; (R3) over all paths of the "
-    "transaction: inserts - removes <= 1, a net +1 path passes the table-empty edge or the not-Greater edge of cmp(len, SIZE), "
-    "the eviction removes the oldest row, a re-registration removes the peer's previous row; (R4) get_sync_peers iterates the "
-    "multimap in reverse; (R5) every inserted row is (fresh timestamp, the peer being registered) for the namespace argument. "
-    "NOT decided: wall-clock monotonicity, exact list contents for all sequences."
+    "Decides structural necessary conditions of C17 from MIR: (R1) PEERS_PER_DOC_CACHE_SIZE evaluates to 5; (R2) "
+    "register_useful_peer is evaluated by an abstract interpreter over its MIR (storage calls answered by an oracle, "
+    "Store::modify runs the transaction body) for every table size 0..5 and every position of the peer's previous row; "
+    "the recorded removes/inserts are applied to the abstract table and the result must be the bounded most-recently-used "
+    "list: previous row of the peer removed, (fresh clock value, this peer) inserted once under this namespace, the oldest "
+    "row evicted exactly when the list would exceed 5; an unknown document yields an error and no write; (R4) "
+    "get_sync_peers reads this namespace's rows in reverse, every row reaching the result. "
+    "NOT decided: wall-clock monotonicity, tables that already violate the invariant (more than 5 rows, two rows of one peer)."
 )
 ASSUMPTIONS = ["redb multimap value order = tuple order (timestamp first)", "SystemTime is monotone enough (not decided)"]
 
@@ -89,94 +91,122 @@ def find_const_literal(f):
     return c.get("lit") if c else None
 
 
-def r2(ctx):
-    f = ctx.facts
+def eval_register(f, n, same_idx, exists=1):
+    """register_useful_peer evaluated (K6') against a peers table holding n rows (oldest first), row
+    `same_idx` (or none) belonging to the peer being registered. Store::modify runs the transaction body.
+    Returns (rendered result, effect log)."""
+    from . import feval as E
     types = tables.table_types(f)
+    log = []
+    st = {"i": 0}
+
+    def oracle(kind, name, payload, site):
+        if kind == "eq":
+            a, b = str(name), str(payload)
+            if "peer" in a and "peer" in b:
+                x = [s0 for s0 in (a, b) if s0.startswith("peer") and s0[4:].isdigit()]
+                if len(x) == 1 and (a == "peer" or b == "peer"):
+                    return int(x[0][4:]) == same_idx
+            return None
+        if kind != "call":
+            return None
+        t, args, it = payload
+        names = [it.tokname(a) for a in args]
+        if callee_matches(t, r"store::fs::Store::modify$"):
+            it.heap.setdefault("tables", E.Tok("tables"))
+            return it.apply(args[1], [E.href("tables")])
+        ct = tables.call_table(t, types)
+        if ct and ct[0] == "namespaces" and ct[1] == "get":
+            log.append(("exists?", names[1:]))
+            return E.Ok(E.Some(E.Tok("g"))) if exists else E.Ok(E.NONE)
+        if ct and ct[0] == NP and ct[1] == "get":
+            log.append(("peers.get", names[1:]))
+            return E.Ok(E.Tok("rows"))
+        if ct and ct[1] in tables.WRITE_OPS:
+            log.append((ct[1] if ct[0] == NP else "%s.%s" % ct[:2], names[1:]))
+            return E.Ok(E.Int(0))
+        if name == "next" and names and names[0] == "rows":
+            i = st["i"]
+            st["i"] += 1
+            if i >= n:
+                return E.NONE
+            return E.Some(E.Ok(E.Tok("guard%d" % i)))
+        if name in ("len", "count") and names and names[0] == "rows":
+            return E.Ok(E.Int(n)) if name == "len" else E.Int(n - st["i"])
+        if name == "into_iter":
+            return args[0]
+        if name == "value" and names[0].startswith("guard"):
+            i = names[0][5:]
+            it.heap.setdefault("peer" + i, E.Tok("peer" + i))
+            return ("tuple", [E.Tok("nanos" + i), E.href("peer" + i)])
+        if name == "elapsed":
+            log.append(("clock",))
+            return E.Ok(E.Tok("since-epoch"))
+        if name == "as_nanos":
+            return E.Tok("now")
+        if name == "get" and names and names[0].isdigit():
+            return E.Int(int(names[0]))          # NonZeroUsize::get of the evaluated constant
+        if name in ("as_bytes", "to_bytes"):
+            return E.Tok("b(%s)" % names[0])
+        if name == "drop":
+            return E.UNIT
+        return None
+    b = f.body(RUP)
+    args = [E.href("self"), E.href("namespace") if b.locals[2]["ty"].startswith("&") else E.Tok("namespace"), E.href("peer") if b.locals[3]["ty"].startswith("&") else E.Tok("peer")]
+    try:
+        ret, hp, ev = E.run(f, RUP, args, {"self": E.Tok("store"), "namespace": E.Tok("namespace"), "peer": E.Tok("peer")}, oracle)
+        return E.describe(ret, f), log
+    except E.Unsupported as e:
+        return "UNSUPPORTED-FORM: %s" % e, log
+
+
+def r2(ctx):
+    """the registration evaluated on every table size 0..SIZE and every position of the peer's previous row,
+    simulated on the table contents, against the most-recently-used list the property describes"""
+    import re as _re
+    f = ctx.facts
     outer, b = tx_closure(f)
     ctx.touch(outer, b)
-    ex = [(bi, t) for bi, t in b.calls() if (tables.call_table(t, types) or (None, None))[:2] == ("namespaces", "get")]
-    if len(ex) != 1:
-        raise mir.AnchorMissing("expected one namespaces.get in register_useful_peer, found %d" % len(ex))
-    gbi, gt = ex[0]
-    # the exists edge: is_some()==true on the Ok payload
-    some_edges = []
-    for ibi, it in b.calls():
-        if it["f"].get("name") in ("is_some", "is_none"):
-            src = trace(b, it["a"][0], through_calls=False)
-            ok = any(o.kind == "call" and o.data["f"].get("name") == "branch" for o in src) or any(o.kind == "call" and o.data is gt for o in trace(b, it["a"][0]))
-            if ok:
-                oc = call_outcomes(b, ibi)
-                e = oc.get("true" if it["f"].get("name") == "is_some" else "false")
-                if e:
-                    some_edges.append(e)
-    n = 0
-    for bi, t in b.calls():
-        ct = tables.call_table(t, types)
-        if ct and ct[0] == NP and ct[1] in tables.WRITE_OPS:
-            n += 1
-            dom = any(b.edge_dominates(e[0], e[1], bi) for e in some_edges)
-            ctx.check(dom, "C17.R2", RUP, "write-dominated-by-document-exists.%s" % ct[1], "peers-table %s is reachable only on the document-exists edge" % ct[1], t["sp"])
-    # key of exists check is the namespace argument
-    k = outer_names(f, outer, b, gt["a"][1])
-    ctx.check(k == {"arg:namespace"}, "C17.R2", RUP, "exists-check-on-this-namespace", "namespaces.get(%s)" % sorted(k), gt["sp"])
-    if n < 5:
-        raise mir.AnchorMissing("expected >=5 writes to the peers table, found %d" % n)
-    ctx.floor("C17.R2", 6)
-
-
-def r3(ctx):
-    f = ctx.facts
-    types = tables.table_types(f)
-    outer, b = tx_closure(f)
-    ps = P.explore(b, loop_bound=1)
-    okp = [p for p in ps if p.ret[0] == "variant" and p.ret[1] == "Ok" and not p.cut]
-    if len(okp) < 3:
-        raise mir.AnchorMissing("expected >=3 successful paths through register_useful_peer, found %d" % len(okp))
-    sig = set()
-    for p in okp:
-        ins = [e for e in p.events if e[0] == "call" and (tables.call_table(e[2], types) or (None, None))[:2] == (NP, "insert")]
-        rem = [e for e in p.events if e[0] == "call" and (tables.call_table(e[2], types) or (None, None))[:2] == (NP, "remove")]
-        # decisions of interest
-        empty = None
-        size_cmp = None
-        for k, v in p.decisions:
-            kk = k
-            neg = False
-            while kk[0] == "not":
-                neg = not neg
-                kk = kk[1]
-            if kk[0] == "cmp" and ("PEERS_PER_DOC_CACHE_SIZE" in kk[2] + kk[3] or "call:get(const:store::PEERS_PER_DOC_CACHE_SIZE" in kk[2] + kk[3]):
-                truth = bool(v) != neg
-                tbl = TRUTH[kk[1]]
-                if "PEERS_PER_DOC" in kk[2]:
-                    tbl = flip(tbl)
-                size_cmp = [o for o in ("Less", "Equal", "Greater") if tbl[o] == truth]
-            if kk[0] == "discr" and ("map" in kk[1] or "transpose" in kk[1] or "next" in kk[1]) and empty is None and "Iterator" not in kk[1]:
-                pass
-        key = (len(ins), len(rem), tuple(size_cmp) if size_cmp else None)
-        sig.add(key)
-        net = len(ins) - len(rem)
-        pid = "ins%d,rem%d,size%s" % (len(ins), len(rem), "".join(x[0] for x in size_cmp) if size_cmp else "-")
-        ctx.check(len(ins) == 1 and net in (0, 1), "C17.R3", RUP, "path.one-insert-net<=1[%s]" % pid, "inserts=%d removes=%d" % (len(ins), len(rem)), b.sp)
-        if size_cmp is not None:
-            # the path went through the size test: growth allowed iff not Greater
-            if net == 1:
-                ctx.check("Greater" not in size_cmp, "C17.R3", RUP, "path.growth-only-when-not-over-size[%s]" % pid, "net +1 with cmp(len,SIZE) in %s" % size_cmp, b.sp)
-            else:
-                ctx.check(size_cmp == ["Greater"], "C17.R3", RUP, "path.eviction-only-when-over-size[%s]" % pid, "eviction with cmp(len,SIZE) in %s" % size_cmp, b.sp)
-    # eviction removes the oldest (first) row; refresh removes the peer's own previous row
-    rems = [(bi, t) for bi, t in b.calls() if (tables.call_table(t, types) or (None, None))[:2] == (NP, "remove")]
-    for bi, t in rems:
-        val = trace(b, t["a"][2])
-        comps = []
-        for o in val:
-            if o.kind == "agg" and o.data[0][0] == "tuple":
-                for op in o.data[1]:
-                    comps.append(sorted({origin_summary(x) for x in trace(b, op)}))
-        ctx.note("remove at %s value components %s" % (t["sp"], comps))
-        okv = len(comps) == 2
-        ctx.check(okv, "C17.R3", RUP, "remove.value-is-(nanos,peer)-pair@%s" % _role(b, bi), "removed row components: %s" % comps, t["sp"])
-    ctx.floor("C17.R3", 6)
+    SIZE = find_const_literal(f) or 5
+    n_cells = 0
+    for n in range(0, SIZE + 1):
+        for j in [None] + list(range(n)):
+            got, log = eval_register(f, n, j)
+            n_cells += 1
+            rows = ["row%d" % i for i in range(n)]
+            want = [r for i, r in enumerate(rows) if i != j] + ["new"]
+            if len(want) > SIZE:
+                want = want[1:]
+            final = list(rows)
+            problems = []
+            ins = 0
+            for e in log:
+                if e[0] == "insert":
+                    ins += 1
+                    if e[1] != ["b(namespace)", "(now,peer)"]:
+                        problems.append("inserted row %s is not (fresh timestamp, this peer) of this namespace" % (e[1],))
+                    final.append("new")
+                elif e[0] == "remove":
+                    m = _re.fullmatch(r"\(nanos(\d+),(peer\d*)\)", e[1][1] if len(e[1]) > 1 else "")
+                    if e[1][0] != "b(namespace)" or not m or not (m.group(2) == "peer%s" % m.group(1) or (m.group(2) == "peer" and j is not None and int(m.group(1)) == j)):
+                        problems.append("removed row %s is not a row of this namespace's list" % (e[1],))
+                    elif "row%s" % m.group(1) in final:
+                        final.remove("row%s" % m.group(1))
+                elif e[0] not in ("exists?", "peers.get", "clock"):
+                    problems.append("unexpected write %s" % (e,))
+            if ins != 1:
+                problems.append("%d inserts" % ins)
+            if log.count(("clock",)) != 1:
+                problems.append("clock read %d times" % log.count(("clock",)))
+            if ("exists?", ["b(namespace)"]) not in log:
+                problems.append("document existence not checked for this namespace")
+            ok = got == "Ok(())" and not problems and sorted(final) == sorted(want)
+            ctx.check(ok, "C17.R2", RUP, "register[size=%d,previous-row=%s]" % (n, "none" if j is None else j),
+                      "returns %s; table after: %s; spec (bounded most-recently-used list of %d): %s; %s" % (got, sorted(final), SIZE, sorted(want), "; ".join(problems) or "effects " + str(log[2:])), b.sp)
+    got, log = eval_register(f, 2, None, exists=0)
+    writes = [e for e in log if e[0] in ("insert", "remove") or "." in e[0]]
+    ctx.check(got.startswith("Err") and not writes, "C17.R2", RUP, "register[unknown-document]", "returns %s, writes %s (spec: error, nothing written)" % (got, writes), b.sp)
+    ctx.floor("C17.R2", 20)
 
 
 def _role(b, bi):
@@ -219,42 +249,7 @@ def r4(ctx):
     ctx.floor("C17.R4", 3)
 
 
-def r5(ctx):
-    f = ctx.facts
-    types = tables.table_types(f)
-    outer, b = tx_closure(f)
-    n = 0
-    for bi, t in b.calls():
-        if (tables.call_table(t, types) or (None, None))[:2] != (NP, "insert"):
-            continue
-        n += 1
-        key = outer_names(f, outer, b, t["a"][1])
-        comps = []
-        for o in trace(b, t["a"][2]):
-            if o.kind == "agg" and o.data[0][0] == "tuple":
-                for op in o.data[1]:
-                    comps.append(outer_names(f, outer, b, op))
-        ok = key == {"arg:namespace"} and len(comps) == 2 and comps[0] == {"clock"} and comps[1] == {"arg:peer"}
-        ctx.check(ok, "C17.R5", RUP, "insert.row-is-(fresh-nanos,this-peer)#%d" % n,
-                  "key %s, row %s; a row inserted with a stale timestamp does not move the peer to the front" % (sorted(key), [sorted(c) for c in comps]), t["sp"])
-    # nanos is computed from the clock in the outer function, namespace/peer are the arguments
-    nl = outer.local_by_name("nanos")
-    okn = False
-    if nl:
-        for o in trace(outer, {"l": nl[0], "p": []}, through_calls=False):
-            if o.kind == "call":
-                chain = origin_summary(o)
-                okn = True
-    els = [t for _, t in outer.calls() if t["f"].get("name") == "elapsed"]
-    ctx.check(okn and len(els) == 1, "C17.R5", RUP, "nanos-from-clock", "nanos = UNIX_EPOCH.elapsed() (one clock read per registration)", outer.sp)
-    if n < 4:
-        raise mir.AnchorMissing("expected 4 inserts into the peers table, found %d" % n)
-    ctx.floor("C17.R5", 5)
-
-
 def run(ctx):
     ctx.run_rule("C17.R1", r1)
     ctx.run_rule("C17.R2", r2)
-    ctx.run_rule("C17.R3", r3)
     ctx.run_rule("C17.R4", r4)
-    ctx.run_rule("C17.R5", r5)
